@@ -35,7 +35,8 @@ def enc_events(evs):
 
 
 def enc_state(st, vars_):
-    return [E.frac_claim(F(st[v])) for v in vars_]
+    # a variable the simulator has not assigned yet is absent from its state; the specification starts it at 0
+    return [E.frac_claim(F(st.get(v, 0))) for v in vars_]
 
 
 def encode_sim_trace(tid, P, N, runs, complete):
@@ -163,6 +164,12 @@ def main(tier, seed):
            ("halving", "x = 1024\nc = 0\nwhile x > 1/1024:\n    x = x/2\n    c = c + 1\nend\n", 30)]
     for name, text, n_det in DET:
         items.append({"id": "simdet-" + name, "text": text, "T": None, "N": n_det})
+    # variables first assigned inside branches, in an order that depends on the path (no initial block)
+    lazy_goals = [("_g1", "x - y", [(F(1), (("x", 1),)), (F(-1), (("y", 1),))]), ("_g2", "x*y + c", [(F(1), (("x", 1), ("y", 1))), (F(1), (("c", 1),))]),
+                  ("_g3", "x", [(F(1), (("x", 1),))])]
+    items.append({"id": "simlazy-order", "T": None, "N": 3, "lazy_goals": lazy_goals,
+                  "text": "t = 0\nwhile true:\n    c = Bernoulli(1/2)\n    if t == 0:\n        if c == 1:\n            x = 1\n            y = 0\n        else:\n            y = 1\n            x = 0\n        end\n        t = 1\n    else:\n        if c == 1:\n            x = x + 1\n        else:\n            y = y + 1\n        end\n    end\nend\n"})
+    items[-1]["sim_goals"] = [[n_, g] for n_, g, _p in lazy_goals]
     # goals handed to the simulator: the result object evaluates them on every state; in the specification they are
     # auxiliary variables assigned at the end of the initial block and of the body
     for it in items:
@@ -205,6 +212,9 @@ def main(tier, seed):
                                        "run": bad_runs[0]})
             continue
         P = gen.instantiate(it.get("T_goals") or it["T"], {}) if it["T"] is not None else absyn.prog(res["parsed"][0])
+        if it.get("lazy_goals"):
+            aux = [("assign", n_, [(F(1), p_)], ("true",), n_) for n_, _g, p_ in it["lazy_goals"]]
+            P = dict(P, vars=list(P["vars"]) + [n_ for n_, _g, _p in it["lazy_goals"]], init=list(P["init"]) + aux, body=list(P["body"]) + aux)
         try:
             D, enc = encode_sim_trace(it["id"], P, it.get("N", N), res["runs"], res["complete"])
         except (E.NotDadic, KeyError) as ex:
@@ -224,6 +234,27 @@ def main(tier, seed):
             nfail += 1
             run.violation({tid}, {"program": it["text"], "failures": json.loads(json.dumps(v["fails"][:5], default=str)),
                                   "runs": v["runs"], "paths": v["paths"]})
+
+    # ---- all validated runs of the lazily initialising program again in ONE call of simulate (goal values of several
+    # samples are processed together): the states must be the ones validated run by run
+    lz = next((it for it in items if it["id"] == "simlazy-order"), None)
+    lres = results.get("simlazy-order", {}) if lz else {}
+    if lz and "runs" in lres and not any("exc" in r_ for r_ in lres["runs"]):
+        scripts = [[e["idx"] for grp in [r_["init"]["ch"]] + [i_["ch"] for i_ in r_["iters"]] for e in grp
+                    if len(e["weights"]) > 1 or e["kind"] != "choices"] for r_ in lres["runs"]]
+        oj = {"kind": "simulate", "id": "simlazy-onecall", "text": lz["text"], "N": lz["N"], "scripts_sparse": scripts, "one_call": True,
+              "sim_goals": lz["sim_goals"], "timeout": 120}
+        ores = pool.run_jobs([oj], per_job_timeout=150).get("simlazy-onecall", {})
+        if "runs" not in ores or len(ores["runs"]) != len(lres["runs"]) or any("exc" in r_ for r_ in ores["runs"]):
+            run.violation({"simlazy-order"}, {"program": lz["text"], "clause": "several samples in one simulate call: simulator raised / lost samples",
+                                              "runs": ores.get("runs", [])[:2]})
+        else:
+            for r1, r2 in zip(lres["runs"], ores["runs"]):
+                seq1 = [r1["init"]["state"]] + [i_["state"] for i_ in r1["iters"]]
+                if [{k: F(v) for k, v in s_.items()} for s_ in seq1] != [{k: F(v) for k, v in s_.items()} for s_ in r2["states"]]:
+                    run.violation({"simlazy-order"}, {"program": lz["text"], "clause": "several samples in one simulate call: states / goal values differ from the run validated alone",
+                                                      "alone": seq1, "together": r2["states"]})
+                    break
 
     # ---- spec -> code: behaviours generated by TLC replayed into the simulator
     gen_items = [it for it in items if it["T"] is not None and not it["id"].startswith("simcont-")][: (12 if quick else 60)]
